@@ -25,9 +25,11 @@ use std::path::PathBuf;
 use unicode_width::UnicodeWidthChar;
 
 pub const NO_POSTING: usize = 99;
-/// the renderer cuts source lines that do not fit its terminal width (140 columns by
-/// default, less the gutter) and shifts the markers accordingly; such excerpts are not read
-pub const MAX_LINE_COLS: usize = 120;
+/// the renderer cuts source lines that do not fit its terminal width and shifts the markers
+/// accordingly: the harness renders on a terminal of TERM_WIDTH columns, and an excerpt with
+/// a line beyond MAX_LINE_COLS would not be read back (none is generated that long)
+pub const TERM_WIDTH: usize = 4096;
+pub const MAX_LINE_COLS: usize = 4000;
 
 pub const LABEL_COMPUTED: &str = "computed balance: ";
 pub const LABEL_MARK: &str = "not match the computed balance";
@@ -75,7 +77,7 @@ pub fn rendered_error(files: &[(String, String)]) -> Result<Option<String>, Stri
             map.insert(PathBuf::from(p), c.as_bytes().to_vec());
         }
         let loader = load::Loader::new(PathBuf::from("/main.ledger"), load::FakeFileSystem::from(map))
-            .with_error_renderer(annotate_snippets::Renderer::plain());
+            .with_error_renderer(annotate_snippets::Renderer::plain().term_width(TERM_WIDTH));
         let out = match report::process(&mut ctx, loader, &report::ProcessOptions::default()) {
             Ok(_) => None,
             Err(e) => Some(format!("{}", e)),
